@@ -813,9 +813,11 @@ class C06(ParseProp):
     level_text = ("The pest grammar is translated into a Coq deep embedding on every run; the parser model (Peg.v interpreter over it + Build.v, the "
                   "hand model of parser.rs) is extracted and run against the crate on every generated sentence, together with an independent "
                   "reference recogniser of the RFC 9535 ABNF + validity rules written in Coq (Concrete.v). Coq theorems: Build accepts every "
-                  "well-typed standard function call (C06_typing_partial); the whole pipeline accepts every Normalized Path -- any number of "
-                  "steps, any name of unescaped Unicode scalar values, any index below 2^53 -- and reads it as the right AST "
-                  "(C06_normalized_paths_partial: the grammar of this run executed symbolically, then parser.rs). The whole-language acceptance "
+                  "well-typed standard function call (C06_typing_partial); the whole pipeline accepts the entire filter-free sublanguage in canonical "
+                  "spelling -- any number of child/descendant segments, bracketed unions of quoted names, wildcards, indices and slices with any "
+                  "subset of their parts, shorthand names, any integers of the I-JSON range -- and every Normalized Path, and reads each as the "
+                  "right AST (C06_filter_free_partial, C06_normalized_paths_partial: the grammar of this run executed symbolically by proved "
+                  "rules for the PEG interpreter, every abandoned alternative included, then the model of parser.rs). The whole-language acceptance "
                   "theorem (every RFC sentence is accepted) is NOT proved: that part rests on the differential run and is named partial.")
     level_note = "whole-language round trip not proved (partial); rendered sentences cover all layout choices, escapes, number formats; pest runtime modelled"
     rule = ("sentences rendered from random well-typed ASTs under random layouts (blank space at every S, quote style, every escape form incl. "
